@@ -448,13 +448,13 @@ impl<'a, R: Clone> AsyncGlobalCache<'a, R> {
 
         let mut order = self.order.lock();
 
-        // Check if another task already inserted this key while we were computing
-        if self.is_already_key_inserted(key, &mut order) {
-            return;
-        }
+        // Replace a previous entry for this key in place (the last insert wins)
+        let replacing = self.prepare_replacement(key, &mut order);
 
-        // Handle entry-count limits
-        self.handle_entry_limit_eviction(&mut order);
+        // Handle entry-count limits (replacing an entry does not grow the cache)
+        if !replacing {
+            self.handle_entry_limit_eviction(&mut order);
+        }
 
         // Add the new entry to the order queue
         order.push_back(key.to_string());
@@ -463,47 +463,20 @@ impl<'a, R: Clone> AsyncGlobalCache<'a, R> {
         self.cache.insert(key.to_string(), (value, timestamp, 0));
     }
 
-    /// Checks if a key is already present in the cache and updates its position in the eviction order
-    /// if the eviction policy is Least Recently Used (LRU) or Adaptive Replacement Cache (ARC).
+    /// Prepares the replacement of a value that is already cached for `key` (the last insert
+    /// wins, as in the sync caches: a refreshed value - e.g. after `invalidate_on` judged the
+    /// cached one stale - must not be discarded in favour of the old one).
     ///
-    /// # Parameters
-    /// - `key`: A reference to the key being checked as a `&str`.
-    /// - `order`: A mutable reference to a locked `VecDeque<String>` wrapped in a `MutexGuard`.
-    ///    This represents the ordered list of keys, used to determine eviction order.
-    ///
-    /// # Returns
-    /// - `true` if the key is already present in the cache and was processed for eviction policy.
-    /// - `false` if the key was not found in the cache.
-    ///
-    /// # Behavior
-    /// 1. If the key exists in the cache:
-    ///    - If the eviction policy is `LRU` or `ARC`, the key's position in the eviction list (`order`)
-    ///      is updated to reflect that it was recently accessed by removing the old position and appending
-    ///      the key to the back of the `VecDeque`.
-    ///    - The function returns `true`, indicating the key is already in the cache.
-    /// 2. If the key does not exist in the cache:
-    ///    - The function returns `false`, allowing the caller to handle the key insertion.
-    ///
-    /// # Eviction Policies
-    /// - `LRU` (Least Recently Used): Keys recently accessed should stay in the cache,
-    ///   and their access order is updated.
-    /// - `ARC` (Adaptive Replacement Cache): Performs similarly to LRU but may enhance
-    ///   replacement policies in specific cases.
-    fn is_already_key_inserted(
+    /// Drops the key's position in the order queue and reports whether the key is cached.
+    /// The old value stays in the map until the caller overwrites it, so that a concurrent
+    /// lookup never finds the key missing.
+    fn prepare_replacement(
         &self,
         key: &str,
         order: &mut MutexGuard<RawMutex, VecDeque<String>>,
     ) -> bool {
-        if self.cache.contains_key(key) {
-            // Key already exists, just update the order if LRU or ARC
-            if self.policy == EvictionPolicy::LRU || self.policy == EvictionPolicy::ARC {
-                order.retain(|k| k != key);
-                order.push_back(key.to_string());
-            }
-            // Don't insert again
-            return true;
-        }
-        false
+        order.retain(|k| k != key);
+        self.cache.contains_key(key)
     }
 
     /// Finds the key with minimum frequency for LFU eviction.
@@ -805,10 +778,8 @@ impl<'a, R: Clone + crate::MemoryEstimator> AsyncGlobalCache<'a, R> {
 
         let mut order = self.order.lock();
 
-        // Check if another task already inserted this key while we were computing
-        if self.is_already_key_inserted(key, &mut order) {
-            return;
-        }
+        // Replace a previous entry for this key in place (the last insert wins)
+        let replacing = self.prepare_replacement(key, &mut order);
 
         // Check memory limit first (if specified)
         if let Some(max_mem) = self.max_memory {
@@ -822,8 +793,21 @@ impl<'a, R: Clone + crate::MemoryEstimator> AsyncGlobalCache<'a, R> {
                 // 1. Don't cache it at all (skip insertion)
                 // 2. Clear all entries and cache it anyway
                 // We choose option 1 to respect the memory limit
+                // (a previous value for the key goes too: its queue position is gone)
+                if replacing {
+                    self.cache.remove(key);
+                }
                 return;
             }
+
+            // The value being replaced does not count: it is overwritten below
+            let replaced_size = if replacing {
+                self.cache
+                    .get(key)
+                    .map_or(0, |entry| entry.value().0.estimate_memory())
+            } else {
+                0
+            };
 
             loop {
                 let current_mem: usize = self
@@ -832,7 +816,7 @@ impl<'a, R: Clone + crate::MemoryEstimator> AsyncGlobalCache<'a, R> {
                     .map(|entry| entry.value().0.estimate_memory())
                     .sum();
 
-                if current_mem + value_size <= max_mem {
+                if current_mem.saturating_sub(replaced_size) + value_size <= max_mem {
                     break;
                 }
 
@@ -895,8 +879,11 @@ impl<'a, R: Clone + crate::MemoryEstimator> AsyncGlobalCache<'a, R> {
             }
         }
 
-        // Handle entry-count limits (reuse the same method)
-        self.handle_entry_limit_eviction(&mut order);
+        // Handle entry-count limits (reuse the same method); replacing an entry does not
+        // grow the cache
+        if !replacing {
+            self.handle_entry_limit_eviction(&mut order);
+        }
 
         // Add the new entry to the order queue
         order.push_back(key.to_string());
